@@ -298,6 +298,7 @@ Why(C, X, e) ==
        [] e.k = "shut-cancel-done" -> "shut-cancel-done-early"
        [] e.k = "snap" -> "predicates"
        [] e.k = "stall" -> "stall-other"
+       [] e.k = "alien" -> "alien-job-" \o e.v
        [] e.k = "top" ->
             (IF e.v \in {"deadlock", "livelock"} THEN "no-progress-" \o e.v
              ELSE IF ~Terminated(C, X) THEN "top-early"
